@@ -417,9 +417,9 @@ class ConcDomain(Domain):
             if mname == "end":
                 return PtrInto(this, this.length)
             if mname in ("front",):
-                return Elem(this, 0, self, site)
+                return self.elem_class()(this, 0, self, site)
             if mname in ("back",):
-                return Elem(this, this.length - 1, self, site)
+                return self.elem_class()(this, this.length - 1, self, site)
             if mname == "resize":
                 n = it.rvalue(args[0], fr)
                 this.length = n
@@ -427,8 +427,11 @@ class ConcDomain(Domain):
             if mname == "empty":
                 return this.length == 0
             if mname == "at":
-                return Elem(this, it.rvalue(args[0], fr), self, site)
+                return self.elem_class()(this, it.rvalue(args[0], fr), self, site)
         return NotImplemented
+
+    def elem_class(self):
+        return Elem
 
     def new_array(self, name, n, elem):
         a = Arr(name, n, elem=elem)
